@@ -122,6 +122,15 @@ func runCase(t *testing.T, c Case, wd time.Duration, out string) (res Result) {
 		}
 	}()
 	defer close(stopWD)
+	if freeFamilies[c.Family] {
+		w := RunFree(t, c.Cfg, func(w *World) {
+			rng := rand.New(rand.NewSource(c.Seed))
+			fam(w, &c, rng)
+		})
+		res = collect(w, c, t0)
+		res.WallMS = time.Since(t0).Milliseconds()
+		return res
+	}
 	ok := t.Run(fmt.Sprintf("case%d", c.Idx), func(t *testing.T) {
 		w := RunScenario(t, c.Cfg, func(w *World) {
 			rng := rand.New(rand.NewSource(c.Seed))
